@@ -1314,11 +1314,13 @@ impl<'input, T: Input> Scanner<'input, T> {
 
             let byte = (as_hex(c) << 4) + as_hex(nc);
             if width == 0 {
-                width = match byte {
-                    _ if byte & 0x80 == 0x00 => 1,
-                    _ if byte & 0xE0 == 0xC0 => 2,
-                    _ if byte & 0xF0 == 0xE0 => 3,
-                    _ if byte & 0xF8 == 0xF0 => 4,
+                // The leading byte holds the width of the sequence and the top bits of the
+                // code point.
+                (width, code) = match byte {
+                    _ if byte & 0x80 == 0x00 => (1, byte),
+                    _ if byte & 0xE0 == 0xC0 => (2, byte & 0x1F),
+                    _ if byte & 0xF0 == 0xE0 => (3, byte & 0x0F),
+                    _ if byte & 0xF8 == 0xF0 => (4, byte & 0x07),
                     _ => {
                         return Err(ScanError::new_str(
                             *mark,
@@ -1326,7 +1328,6 @@ impl<'input, T: Input> Scanner<'input, T> {
                         ));
                     }
                 };
-                code = byte;
             } else {
                 if byte & 0xc0 != 0x80 {
                     return Err(ScanError::new_str(
@@ -1334,7 +1335,8 @@ impl<'input, T: Input> Scanner<'input, T> {
                         "while parsing a tag, found an incorrect trailing UTF-8 byte",
                     ));
                 }
-                code = (code << 8) + byte;
+                // Each trailing byte contributes 6 bits.
+                code = (code << 6) + (byte & 0x3F);
             }
 
             self.skip_n_non_blank(3);
